@@ -124,7 +124,7 @@ def run(tier, rep, replay=None):
 
 
 MANIFEST = {
- "text": "FoTransform.tla states the Fujisaki-Okamoto layer of ML-KEM and of round-3 Kyber over an abstract encryption scheme and checks correctness and that the implicit-rejection key is bound to the RECEIVED ciphertext (TLC finds the seeded deviation that uses the re-encrypted one); MLKEMJob.tla is FIPS 203 KeyGen_internal + Encaps_internal + Decaps_internal (and the round-3 Kyber variants) for k = 2, 3, 4 as an executable behaviour (Keccak job machine over a k-dependent program of hash jobs, sampling, NTT by layers, compression, encoding, K-PKE.Decrypt, re-encryption, implicit rejection) with which TLC recomputes ek / dk / ct / ss and decapsulation results for sampled seeds and ciphertexts of the run and rejects a falsified ciphertext; KyberHelpers.tla states Barrett and Montgomery reduction, Montgomery conversion, conditional subtraction, Compress_d / Decompress_d (d = 1, 4, 5, 10, 11) and 12-bit packing, evaluated by TLC on the implementation's outputs over the ENTIRE domain (Montgomery reduction: both ends, around zero, strided) under the default and the purego build. The driver compares keys, ciphertexts and secrets of all six parameter sets with a transcription of the standards on structured and random seeds, decapsulates honest, other-key, bit-flipped (c1 and c2), constant and random ciphertexts with TLC deciding which candidate key must be returned, and parses ML-KEM keys with coefficients q-1 / q / q+1 / 4095 at first, last and random positions and decapsulation keys with altered hash / ek / z (TLC decodes the coefficients itself: accepted iff all below q, accepted keys re-encode identically).",
+ "text": "FoTransform.tla states the Fujisaki-Okamoto layer of ML-KEM and of round-3 Kyber over an abstract encryption scheme and checks correctness and that the implicit-rejection key is bound to the RECEIVED ciphertext (TLC finds the seeded deviation that uses the re-encrypted one); MLKEMJob.tla is FIPS 203 KeyGen_internal + Encaps_internal + Decaps_internal (and the round-3 Kyber variants) for k = 2, 3, 4 as an executable behaviour (Keccak job machine over a k-dependent program of hash jobs, sampling, NTT by layers, compression, encoding, K-PKE.Decrypt, re-encryption, implicit rejection) with which TLC recomputes ek / dk / ct / ss and decapsulation results for sampled seeds and ciphertexts of the run and rejects a falsified ciphertext; KyberHelpers.tla states Barrett and Montgomery reduction, Montgomery conversion, conditional subtraction, Compress_d / Decompress_d (d = 1, 4, 5, 10, 11) and 12-bit packing, evaluated by TLC on the implementation's outputs over the ENTIRE domain (Montgomery reduction: both ends, around zero, strided) under the default and the purego build. The driver compares keys, ciphertexts and secrets of all six parameter sets with a transcription of the standards on structured and random seeds, decapsulates honest, other-key, bit-flipped (c1 and c2), constant and random ciphertexts with TLC deciding which candidate key must be returned, and parses ML-KEM keys with coefficients q-1 / q / q+1 / 4095 at first, last and random positions and decapsulation keys with altered hash / ek / z (TLC decodes the coefficients itself: accepted iff all below q, accepted keys re-encode identically). Decapsulation-key parsing includes the class ek-coef+q-rehash (non-canonical embedded ek with a matching hash: refused, or kept byte for byte).",
  "note": "TLC recomputation of the full algorithms is sampled: per parameter set 1 key generation + encapsulation and 3 decapsulations (1 accepting, 2 rejecting) in quick, four times that in thorough; all other lines rely on the transcription plus the decision / helper specifications.",
  "technique": "TLC check of abstract FO transform (with seeded deviation) + executable FIPS 203 / Kyber round 3 (KeyGen, Encaps, Decaps; k = 2, 3, 4) in TLA+ recomputing sampled outputs + TLC evaluation of helper-function contracts over complete domains + TLC judgement of recorded KEM operations + differential against a transcription of the standards",
 }
